@@ -6,6 +6,7 @@ the `ggm` correspondence stream ties it to the compiled crate), generic in the s
 `g`, in the first-level seeds `s0 s1` and in the input length `inpLen ≥ 1` (tree depth `8 * inpLen`),
 and hold for every history of `eval` / `puncture` calls of any length.
 -/
+import StarModel.Lemmas.Skeleton
 import StarModel.Lemmas.Ggm
 
 namespace StarModel.Props.C10
